@@ -1020,7 +1020,12 @@ FN["floor"] = _num1(lambda x: float(math.floor(x)) if abs(x) < 2.0 ** 52 else x)
 
 @fn("concat")
 def _concat(a, c):
-    vals = [plain(A(a, c, i)) for i in range(len(a))]
+    vals = [A(a, c, i) for i in range(len(a))]
+    if sum(1 for v in vals if isinstance(v, Stringified)) == 1 and all(
+            isinstance(v, Stringified) or (isinstance(v, str) and not v.strip(" \t\r\n")) for v in vals):
+        # JSON text with white space around it is JSON text of the same value (RFC 8259: ws value ws)
+        return [v for v in vals if isinstance(v, Stringified)][0]
+    vals = [plain(v) for v in vals]
     if not all(isinstance(v, str) for v in vals):
         return NOTHING
     return "".join(vals)
